@@ -193,8 +193,8 @@ def graphs_of(fam):
     return n, alpha, [gen(n, alpha, i) for i in range(tot)], idx_of
 
 
-def evaluate(f, *args):
-    st, out = guarded(f, *[a.copy() for a in args])
+def evaluate(f, *args, timeout=20):
+    st, out = guarded(lambda *a: f(*a), *[a.copy() for a in args], _timeout=timeout)
     if st != 'ok':
         return ('exc', type(out).__name__)
     return ('ok', out if isinstance(out, tuple) else (out,))
@@ -293,11 +293,17 @@ def work_big(unit):
     f, kinds = {'DIR': DIR, 'UND': UND, 'SIGNED': SIGNED}[table][name]
     t.c['measures'] += 1
     A = big_graph(table)
-    base = evaluate(f, A)
+    base = evaluate(f, A, timeout=900)
     t.c['evaluations'] += 1
+    if base == ('exc', 'CaseTimeout'):
+        t.c['big_not_finished_in_900s'] += 1        # nothing is claimed for this measure at this size
+        return t
     for lab, p in (('reversal', np.arange(BIG_N)[::-1]), ('rotation97', (np.arange(BIG_N) + 97) % BIG_N)):
-        other = evaluate(f, A[np.ix_(p, p)])
+        other = evaluate(f, A[np.ix_(p, p)], timeout=900)
         t.c['evaluations'] += 1
+        if other == ('exc', 'CaseTimeout'):
+            t.c['big_not_finished_in_900s'] += 1
+            continue
         t.c['pairs_compared'] += 1
         t.c['nontrivial'] += 1
         compare(t, name.split('[')[0], kinds, base, other, p,
@@ -366,7 +372,8 @@ def replay(rec):
     for table in (DIR, UND, SIGNED):
         if name in table and 'ci' not in c:
             f, kinds = table[name]
-            compare(t, name.split('[')[0], kinds, evaluate(f, A), evaluate(f, A[np.ix_(p, p)]), p, c)
+            to = 900 if c.get('big') else 20
+            compare(t, name.split('[')[0], kinds, evaluate(f, A, timeout=to), evaluate(f, A[np.ix_(p, p)], timeout=to), p, c)
             return t
     f, kinds, _ = WITH_CI[name]
     ci = np.array(c['ci'])
